@@ -47,6 +47,8 @@ ObsChecks(o) == <<
     <<"C03.OnlyGenuine", \A h \in ih .. o.height : BlockAt(o.blocks, h).sig = "P" /\ BlockAt(o.blocks, h).ssig = "P", "a block in the node's chain is not signed by the genesis proposer's key">>,
     <<"C03.StoredOnlyProposersData", \A h \in ih .. MinOf(o.height, top) : HasBlock(o.blocks, h) => BlockAt(o.blocks, h).txs = C(h).txs /\ BlockAt(o.blocks, h).dh,
         "a block in the node's chain holds transaction data the proposer did not sign for that height">>,
+    <<"C03.NothingBeyondProposer", o.height <= top /\ o.stH <= top,
+        "the node's chain or state goes beyond the last block the proposer signed">>,
     <<"C03.InclSound", \A h \in ih .. MaxOf(o.incl, o.durIncl) : h <= top =>
           /\ (\E d \in onDA : d.kind = "hdr" /\ d.h = h)
           /\ (IsEmptyBlk(h) \/ (\E d \in onDA : d.kind = "data" /\ d.h = h) \/ (\E d \in onDA : d.kind = "data" /\ C(d.h).txs = C(h).txs)),
@@ -113,7 +115,7 @@ TExec ==
               "execution layer asked to execute a height out of order">>,
           <<"C02.AppliedProposersTxs", e.ok => e.txs = C(e.h).txs /\ e.prevok /\ e.prev = ChainRootBefore(e.h),
               "executed transactions / previous root are not the proposer's for that height">>,
-          <<"C03.ExecutedOnlyProposersData", (e.h >= ih /\ e.h <= top) => e.txs = C(e.h).txs,
+          <<"C03.ExecutedOnlyProposersData", e.h >= ih /\ e.h <= top /\ e.txs = C(e.h).txs,
               "transaction data that the proposer did not sign for this height was handed to the execution layer">>
           >>, l, run)
     /\ nextExec' = IF e.ok THEN e.h + 1 ELSE nextExec
